@@ -6,7 +6,7 @@ use crate::scan::{pn_ctor, pn_obs};
 use crate::Out;
 use core::convert::TryFrom;
 use core::time::Duration;
-use helgoboss_midi::verif_hooks::{now_nanos, set_now_nanos};
+use crate::clock::{now_nanos, set_now_nanos};
 use helgoboss_midi::*;
 use std::collections::{HashMap, VecDeque};
 
@@ -45,7 +45,7 @@ pub fn eval_pp(t: &mut PTables, w: &[&str]) -> Option<Obs> {
         ["default", id] => { set_at(&mut t.tab, id.parse().ok()?, PollingParameterNumberMessageScanner::default()); Some(ok_obs()) }
         ["copy", a, b] => { let x = (*t.tab.get(a.parse::<usize>().ok()?)?)?; set_at(&mut t.tab, b.parse().ok()?, x); Some(ok_obs()) }
         ["c12begin", _id, _ch] => Some(ok_obs()),
-        ["tick", d] => { set_now_nanos(now_nanos().saturating_add(d.parse().ok()?)); Some(ok_obs()) }
+        ["tick", d] => { crate::clock::advance(d.parse().ok()?); Some(ok_obs()) }
         ["settime", x] => { set_now_nanos(x.parse().ok()?); Some(ok_obs()) }
         ["reset", id] => { t.tab.get_mut(id.parse::<usize>().ok()?)?.as_mut()?.reset(); Some(ok_obs()) }
         ["feed", id, which, s, d1, d2] => {
@@ -749,4 +749,54 @@ pub fn isolation(out: &mut Out, seed: u64, histories: usize, len: usize, pair: O
     out.stat("evaluations", n);
     out.stat("nontrivial", n);
     out.stat("histories", histories as u64);
+}
+
+// ------------------------------------------------------------------------------------------ the crate as shipped: real clock
+
+/// Random histories whose outcome does not depend on how long anything really takes, so that they can be run against
+/// `std::time::Instant` (build without the cfg flag) and still be compared with the model line by line: timeout 0
+/// (every poll is late), one hour (every poll is early), and 1 ms with a real 5 ms sleep before every poll (late).
+pub fn realclock_histories(out: &mut Out, seed: u64, histories: usize, len: usize) {
+    let mut rng = Rng(seed ^ 0x7EA1);
+    out.raw("# config real_clock");
+    let (mut n, mut reports) = (0u64, 0u64);
+    let impls = ["raw", "str", "frn"];
+    for h in 0..histories {
+        // the sleeping variant is the expensive one: one history in ten
+        let timeout: u64 = if h % 10 == 9 { 1_000_000 } else if h % 2 == 0 { 0 } else { 3_600_000_000_000 };
+        let chans = if h % 3 == 0 { 2 } else { 16 };
+        out.req("pp settime 0");
+        if timeout == 0 && h % 4 == 0 { out.req("pp default 1"); } else { out.req(&format!("pp new 1 {}", timeout)); }
+        for _ in 0..len {
+            let r = rng.below(100);
+            let which = impls[rng.below(3) as usize];
+            if r < 2 {
+                out.req("pp reset 1");
+                out.req(&format!("pp isnew 1 {}", timeout));
+            } else if r < 22 {
+                if timeout == 1_000_000 { out.req("pp tick 5000000"); }
+                let l = out.req_ret(&format!("pp poll 1 {}", rng.below(chans)));
+                if !l.starts_with('-') { reports += 1; }
+            } else if r < 32 {
+                let i = rng.below(8) as u32;
+                let v = if i == 1 || i == 5 { rng.below(16384) } else { rng.below(128) } as u32;
+                let m = pn_ctor(i, rng.below(chans) as u32, rng.below(16384) as u32, v);
+                let order = if rng.below(2) == 0 { DataEntryByteOrder::LsbFirst } else { DataEntryByteOrder::MsbFirst };
+                let ms: [Option<RawShortMessage>; 4] = m.to_short_messages(order);
+                for x in ms.iter().flatten() {
+                    let b = x.to_bytes();
+                    let l = out.req_ret(&format!("pp feed 1 {} {} {} {}", which, b.0, b.1.get(), b.2.get()));
+                    if l.chars().any(|c| c.is_ascii_digit()) { reports += 1; }
+                }
+            } else {
+                let (s, d1, d2) = random_msg(&mut rng, chans);
+                let l = out.req_ret(&format!("pp feed 1 {} {} {} {}", which, s, d1, d2));
+                if l.chars().any(|c| c.is_ascii_digit()) { reports += 1; }
+            }
+            n += 1;
+        }
+    }
+    out.stat("evaluations", n);
+    out.stat("nontrivial", reports);
+    out.stat("real_clock", 1);
 }
